@@ -374,6 +374,11 @@ var totalProgs = []totalProg{
 	{"[xs == ys, xs != ys, m == n, m != n]", []string{"xs", "ys", "m", "n"}, []*types.Type{types.List(types.Num), types.List(types.Num), types.Map(types.Str, types.Num), types.Map(types.Str, types.Num)}},
 	{"[len(union(xs, ys)), len(intersect(xs, ys)), len(diff(xs, ys))]", []string{"xs", "ys"}, []*types.Type{types.List(types.Num), types.List(types.Num)}},
 	{"s + u", []string{"s", "u"}, []*types.Type{types.Str, types.Str}},
+	// string literals spelled like the names used next to them (a compiler
+	// that pools constants by text must keep names and literals apart)
+	{"s + \"s\" + u + \"u\"", []string{"s", "u"}, []*types.Type{types.Str, types.Str}},
+	{"get(m, \"m\", d) + get(m, \"k\", d) + len(\"d\")", []string{"m", "k", "d"}, []*types.Type{types.Map(types.Str, types.Num), types.Str, types.Num}},
+	{"if(s == \"s\", p.a, len(\"a\")) + len(p.b + \"b\")", []string{"s", "p"}, []*types.Type{types.Str, TObjAB}},
 	{"if(c, a, b) + (c ? a : b)", []string{"c", "a", "b"}, []*types.Type{types.Bool, types.Num, types.Num}},
 }
 
